@@ -283,6 +283,10 @@ void check_spline_invariants(const Sp<k> &s, std::vector<Violation> &out,
 // C14: per-slot state hashes
 using Snapshot = std::array<uint64_t, NSLOTS>;
 Snapshot snapshot(const Pool &pool, bool deep);
+// C14: evaluation is observable state and must not depend on what was done to
+// (or with) the object before: every pooled spline must evaluate bit-identically
+// to a pristine twin built from its window and coefficients.
+void check_history_independence(const Pool &pool, std::vector<Violation> &out, const char *where);
 void compare_snapshots(const Snapshot &before, const Snapshot &after,
                        const Outcome &out, std::vector<Violation> &viol,
                        const char *prop_for_refused);
